@@ -194,7 +194,9 @@ func c01MakeSrc(r *core.Rand, v2019, frag bool, phoneVar int) ([]byte, ref.Param
 	if v2019 {
 		n = 10
 	}
-	q := ref.Params{ID: r.U16(), V2019: v2019, VersionByt: 1, Encrypt: r.Bool(), Fragmented: frag, BCD: c01Phone(r, n, phoneVar),
+	// the 2019 header's protocol-version-number byte: every class of value a terminal may put there (the reply always says 1)
+	vb := core.Pick(r, []byte{1, 1, 0, 2, 0x7d, 0x7e, 0xff, r.Byte()})
+	q := ref.Params{ID: r.U16(), V2019: v2019, VersionByt: vb, Encrypt: r.Bool(), Fragmented: frag, BCD: c01Phone(r, n, phoneVar),
 		Serial: core.Pick(r, append(c01Serials, r.U16(), r.U16())), Body: r.Bytes(r.Intn(24))}
 	if r.Chance(1, 6) {
 		q.ID = core.Pick(r, []uint16{0x7e7e, 0x7d7d, 0x0200, 0x0002, 0x7d01})
